@@ -2,6 +2,7 @@ mod alloc;
 mod c14;
 mod c16;
 mod c19;
+mod ds;
 mod exec;
 mod gen;
 mod golden;
@@ -69,6 +70,15 @@ fn main() {
                 "C07" => props::plan_c07(tier, seed),
                 "C08" => props::plan_c08(tier, seed),
                 "C01" | "C02" => props::plan_c01(tier, seed, if thorough { 40000 } else { 3000 }),
+                "ds" => {
+                    if !ds::AVAILABLE {
+                        // the library no longer offers the hook: nothing to compare (reported, not an alarm)
+                        std::fs::write(out, format!("{{\"property\":\"ds\",\"tier\":\"{tier}\",\"seed\":{seed},\"config\":\"{}\",\"cases\":0,\"lines\":0,\"distinct_traces\":0,\"distinct_lines\":0,\"op_hist\":{{}},\"status_hist\":{{}},\"err_kind_hist\":{{}},\"soft_kind_mismatch\":0,\"spec_over_model\":0,\"matrix_cells\":0,\"matrix_open\":0,\"samples\":[],\"mismatches\":[],\"extra\":{{\"hook_missing\":true}}}}", util::CFG)).unwrap();
+                        println!("ds {tier} cfg={} hook verif_hooks not found in the library: campaign skipped", util::CFG);
+                        return;
+                    }
+                    ds::plan_ds(tier, seed)
+                }
                 "C01h" | "C02h" => props::plan_history(prop, tier, seed, if thorough { if util::CFG == "p256" { 3000 } else { 10000 } } else { 800 }),
                 "C03" | "C04" | "C05" | "C06" | "C09" | "C10" | "C11" | "C13" | "C17" | "C18" => {
                     // the second configuration (P-256 + ML-KEM-768) is several times slower per operation
